@@ -74,8 +74,8 @@ def snap(x, depth=0):
 
 ONE_SHOT_HINTS = [
     # (hint source with {} for the item hint, families of subjects that satisfy its origin)
-    ('Iterable[{}]', ('generator', 'PyIterator', 'PyIterable', 'PyGenerator', 'list_iterator', 'map')),
-    ('Iterator[{}]', ('generator', 'PyIterator', 'PyGenerator', 'list_iterator', 'map')),
+    ('Iterable[{}]', ('generator', 'PyIterator', 'PyIterable', 'PyGenerator', 'list_iterator', 'map', 'PySizedIterator')),
+    ('Iterator[{}]', ('generator', 'PyIterator', 'PyGenerator', 'list_iterator', 'map', 'PySizedIterator')),
     ('Generator[{}, None, None]', ('generator', 'PyGenerator')),
     ('Container[{}]', ('PyContainer',)),
     ('Reversible[{}]', ('PyReversible',)),
@@ -98,7 +98,7 @@ def make_one_shot(fam, items):
 def drain(o, fam):
     if fam in ('generator', 'list_iterator', 'map'):
         return list(o)
-    if fam in ('PyIterator', 'PyGenerator'):
+    if fam in ('PyIterator', 'PyGenerator', 'PySizedIterator'):
         return o.drain()
     return list(o._items)
 
